@@ -274,6 +274,16 @@ impl AgentSim {
     pub fn gen_request(&mut self, ctx: &mut Ctx, tid: u128, sign_bias: u32) -> MsgSpec {
         let big = if ctx.ch.rare(1, 40) { 60000 } else { 0 };
         let mut attrs = gen_attrs(ctx.ch, &self.pool[..self.pool.len().min(8)], &SpecOpts { max_attrs: 3, big });
+        // at most one large raw attribute, so that the message fits the 16-bit length field
+        let mut seen_big = false;
+        attrs.retain(|a| match a {
+            TAttr::Raw(_, v) if v.len() > 1000 => {
+                let keep = !seen_big;
+                seen_big = true;
+                keep
+            }
+            _ => true,
+        });
         if self.big_requests && big == 0 && ctx.ch.coin() {
             let l = *ctx.ch.pick(&[2040usize, 2048, 2100, 3000, 4096, 5000]) + ctx.ch.below(4) as usize;
             attrs.retain(|a| !matches!(a, TAttr::Raw(0x7f02, _)));
@@ -391,7 +401,12 @@ impl AgentSim {
         if self.prop == "C18" && bytes.len() < 4096 {
             self.carries_the_message(ctx, &spec, &bytes)?;
         }
-        let signed = spec.signed();
+        // (from the bytes, not from the description: a builder may decline to seal, e.g. with an
+        // empty password)
+        let signed = match refcodec::decode(&bytes) {
+            Verdict::Accept(v) => v.first_integrity.is_some(),
+            Verdict::Reject(_) => spec.signed(),
+        };
         self.advance_before_send(ctx);
         let at = self.now;
         ctx.st.inc("op.send_request");
@@ -833,7 +848,7 @@ impl AgentSim {
                 ctx.st.inc("out.dropped");
                 // C07: a dropped response leaves the transaction outstanding
                 if let Some(tid) = tid_of(&bytes) {
-                    if self.model.live_idx(tid).map_or(false, |i| !self.model.txs[i].rc) {
+                    if self.model.live_idx(tid).map_or(false, |i| !self.model.in_limbo(i)) {
                         let q = self.call(ctx, Call::QueryTx { tid })?;
                         if !matches!(q, Reply::Tx(Some(_))) {
                             // the same observation breaks C05 (gone without having completed) and C07
